@@ -337,6 +337,8 @@ func c02Sig(msg string, v *explore.Violation) string {
 	switch {
 	case strings.HasPrefix(msg, "[session-shutdown-began-before-all-commands-were-received]"):
 		return "session-shutdown-began-before-all-commands-were-received"
+	case strings.HasPrefix(msg, "pool:"):
+		return "pooled-object-returned-twice"
 	case strings.HasPrefix(msg, "deadlock"):
 		return "deadlock"
 	case strings.HasPrefix(msg, "horizon"):
